@@ -18,7 +18,7 @@ RT = re.compile(r"^\(rt ([0-9a-f]*) \| (.*) \| (.*)\)$")
 
 def explore(ctx):
     h = common.hexs
-    n = 600 if ctx.quick else 30000
+    n = 2000 if ctx.quick else 60000
     cases = []
     per = 20
     exprs_all = []
